@@ -22,8 +22,9 @@ use hvcommon::{Value, json, panic_message};
 use hydro_lang::live_collections::stream::{NoOrder, TotalOrder};
 use hydro_lang::sim::compiled::{verif_can_run, verif_run_hooks_logged};
 use hydro_lang::sim::runtime::{
-    KeyedSingletonHook, KeyedStreamHook, PassthroughSingletonHook, SimHook, SingletonHook, StreamHook,
-    TopLevelFoldHook, TopLevelStreamOrderHook,
+    KeyedSingletonHook, KeyedStreamHook, MergeOrderedHook, PassthroughSingletonHook, SimHook, SimInlineHook,
+    SingletonHook, StreamHook, StreamOrderHook, TopLevelFoldHook, TopLevelMergeOrderedHook,
+    TopLevelStreamOrderHook,
 };
 
 // ------------------------------------------------------------------ scripted driver
@@ -166,6 +167,8 @@ enum Obs {
     M(M, Receiver<(u32, u32)>),
     /// plain queue, one Vec emitted per release (top-level fold)
     V(Q, Receiver<Vec<u32>>),
+    /// two plain queues (top-level merge_ordered), items emitted one by one
+    Q2(Q, Q, Receiver<u32>),
 }
 
 struct Built {
@@ -279,6 +282,23 @@ fn build(h: &Value) -> Built {
             });
             Built { hook, obs: Obs::V(q, rx) }
         }
+        "top_merge" => {
+            let q1: Q = Rc::new(RefCell::new(VecDeque::new()));
+            let q2: Q = Rc::new(RefCell::new(VecDeque::new()));
+            let (tx, rx) = unbounded::<u32>();
+            q1.borrow_mut().extend(u32s(&h["q"]));
+            q2.borrow_mut().extend(u32s(&h["q2"]));
+            let hook = Box::new(TopLevelMergeOrderedHook::<u32> {
+                first: q1.clone(),
+                second: q2.clone(),
+                to_release: None,
+                release_source: None,
+                output: tx,
+                location: LOC,
+                format_item_debug: fmt_u32,
+            });
+            Built { hook, obs: Obs::Q2(q1, q2, rx) }
+        }
         "keyed_t" | "keyed_n" | "ksingle" => {
             let m: M = Rc::new(RefCell::new(FxHashMap::default()));
             let (tx, mut rx) = unbounded::<(u32, u32)>();
@@ -328,6 +348,10 @@ fn build(h: &Value) -> Built {
 fn snapshot(obs: &Obs) -> Value {
     match obs {
         Obs::Q(q, _) | Obs::V(q, _) => json!([[0, q.borrow().iter().copied().collect::<Vec<u32>>()]]),
+        Obs::Q2(a, b, _) => json!([
+            [0, a.borrow().iter().copied().collect::<Vec<u32>>()],
+            [1, b.borrow().iter().copied().collect::<Vec<u32>>()]
+        ]),
         Obs::M(m, _) => {
             #[allow(clippy::disallowed_methods)]
             let v: Vec<Value> =
@@ -339,7 +363,7 @@ fn snapshot(obs: &Obs) -> Value {
 
 fn emitted(obs: &mut Obs) -> Value {
     match obs {
-        Obs::Q(_, rx) => Value::Array(drain(rx).into_iter().map(|v| json!([0, v])).collect()),
+        Obs::Q(_, rx) | Obs::Q2(_, _, rx) => Value::Array(drain(rx).into_iter().map(|v| json!([0, v])).collect()),
         Obs::M(_, rx) => Value::Array(drain(rx).into_iter().map(|(k, v)| json!([k, v])).collect()),
         // one Vec per release: flattened, with the batch index as "key"
         Obs::V(_, rx) => Value::Array(
@@ -351,6 +375,7 @@ fn emitted(obs: &mut Obs) -> Value {
 fn push(obs: &Obs, k: u32, v: u32) {
     match obs {
         Obs::Q(q, _) | Obs::V(q, _) => q.borrow_mut().push_back(v),
+        Obs::Q2(a, b, _) => (if k == 0 { a } else { b }).borrow_mut().push_back(v),
         Obs::M(m, _) => m.borrow_mut().entry(k).or_default().push_back(v),
     }
 }
@@ -435,6 +460,49 @@ fn run_hook(case: &Value) -> Value {
         }));
     }
     json!({ "rounds": rounds })
+}
+
+/// inline (ObserveNonDet) hooks: one full batch in, one decision, one Vec out
+fn run_inline(case: &Value) -> Value {
+    let kind = case["kind"].as_str().unwrap();
+    let (tx, mut rx) = unbounded::<Vec<u32>>();
+    let mut hook: Box<dyn SimInlineHook> = match kind {
+        "shuffle" => {
+            let input = Rc::new(RefCell::new(Some(u32s(&case["input"]))));
+            Box::new(StreamOrderHook::<u32>::new(input, tx, LOC, fmt_u32))
+        }
+        "merge" => {
+            let a = Rc::new(RefCell::new(Some(u32s(&case["first"]))));
+            let b = Rc::new(RefCell::new(Some(u32s(&case["second"]))));
+            Box::new(MergeOrderedHook::<u32>::new(a, b, tx, LOC, fmt_u32))
+        }
+        other => panic!("unknown inline hook kind {other}"),
+    };
+    let pending0 = hook.pending_decision();
+    let has0 = hook.has_decision();
+    let mut d = Scripted::from_round(case);
+    let st = d.0.clone();
+    let r = catch_unwind(AssertUnwindSafe(|| {
+        let mut bd = Borrowed(&mut d);
+        hook.autonomous_decision(&mut bd);
+    }));
+    if let Err(e) = r {
+        let bad = st.borrow().bad;
+        let mut v = panic_value(e, bad);
+        v["ds_used"] = json!(st.borrow().used);
+        return v;
+    }
+    let has1 = hook.has_decision();
+    let pending1 = hook.pending_decision();
+    let mut log = String::new();
+    if let Err(e) = catch_unwind(AssertUnwindSafe(|| hook.release_decision(Some(&mut log)))) {
+        return panic_value(e, false);
+    }
+    let out: Vec<Vec<u32>> = drain(&mut rx);
+    json!({
+        "pending0": pending0, "has0": has0, "has1": has1, "pending1": pending1, "has2": hook.has_decision(),
+        "out": out, "used": st.borrow().pos, "ds_used": st.borrow().used, "log": log,
+    })
 }
 
 struct Tick {
@@ -633,6 +701,7 @@ fn run(case: &Value) -> Value {
         "hook" => run_hook(case),
         "tick" => run_tick(case),
         "exh" => run_exhaustive(case),
+        "inline" => run_inline(case),
         "bytes" => run_bytes(case),
         other => json!({ "bad_case": format!("unknown kind {other}") }),
     }
